@@ -162,6 +162,43 @@ def lib_ranges(binp, nm):
     return rngs, harness, more
 
 
+
+REGIDX = {"rax": 3, "rbx": 4, "rcx": 5, "rdx": 6, "rsi": 7, "rdi": 8, "rbp": 9, "rsp": 2, "r8": 10, "r9": 11, "r10": 12, "r11": 13, "r12": 14, "r13": 15, "r14": 16, "r15": 17}
+MEMOP = re.compile(r"(%[a-z]s:)?(-?0x[0-9a-f]+|-?[0-9]+)?\((%[a-z0-9]+)?(?:,(%[a-z0-9]+)(?:,([1248]))?)?\)")
+
+
+def mem_operands(binp, rngs):
+    """pc -> [(disp, base_index, index_index, scale)] for the register-addressed memory operands of the Go functions
+    in rngs (binutils objdump, AT&T syntax); lea / nop forms and segment-relative operands are not accesses."""
+    ops = {}
+    for lo, hi, _n, kind in rngs:
+        if kind != "g":
+            continue
+        od = subprocess.run(["objdump", "-d", "--no-show-raw-insn", "--start-address=0x%x" % lo, "--stop-address=0x%x" % hi, binp], capture_output=True, text=True).stdout
+        for line in od.splitlines():
+            m = re.match(r"^\s*([0-9a-f]+):\s+(\S+)\s*(.*)$", line)
+            if not m:
+                continue
+            pc, mnem, rest = int(m.group(1), 16), m.group(2), m.group(3).split("#")[0]
+            if mnem.startswith("lea") or mnem.startswith("nop") or mnem.startswith("prefetch"):
+                continue
+            lst = []
+            for mm in MEMOP.finditer(rest):
+                seg, disp, base, index, scale = mm.groups()
+                if seg or (base and base[1:] == "rip"):
+                    continue
+                b = REGIDX.get(base[1:]) if base else None
+                x = REGIDX.get(index[1:]) if index else None
+                if (base and b is None) or (index and x is None):
+                    continue
+                if b is None and x is None:
+                    continue
+                lst.append((int(disp, 0) if disp else 0, b, x, int(scale) if scale else 1))
+            if lst:
+                ops[pc] = lst
+    return ops
+
+
 def run_steps(out, tier, seed, workdir, vt, binp, nm, mark):
     """Second tracer run: whole public operations single-stepped; program counters inside the package's own
     functions must be the same sequence for every assignment of contents of one shape."""
@@ -180,6 +217,14 @@ def run_steps(out, tier, seed, workdir, vt, binp, nm, mark):
         out.inconclusive.append("paths/steps: only %d library functions of package sm4 found in the binary" % len(rngs))
         return
     los = [r[0] for r in rngs]
+    memops = mem_operands(binp, rngs)
+    st_lo = st_hi = None
+    for line in nm.splitlines():
+        f = line.split()
+        if len(f) >= 4 and f[3] == "runtime.text":
+            st_lo = int(f[0], 16)
+        elif len(f) >= 4 and f[3] == "runtime.end":
+            st_hi = int(f[0], 16)
     plan = os.path.join(workdir, "steps_plan.jsonl")
     trace = os.path.join(workdir, "steps_trace.bin")
     log = os.path.join(workdir, "steps_run.log")
@@ -212,6 +257,8 @@ def run_steps(out, tier, seed, workdir, vt, binp, nm, mark):
         return
     # parse: marker(id) -> entry -> steps -> returned
     seqs = {}      # id -> list of pcs inside the library
+    stat = {}      # id -> list of (pc, effective address) of register-addressed accesses to the binary's static data
+    nstat = 0
     cur = None
     total = kept = 0
     with open(trace, "rb") as fh:
@@ -226,12 +273,21 @@ def run_steps(out, tier, seed, workdir, vt, binp, nm, mark):
                     cur = rax if rip == mark else None
                     if cur in plans and not plans[cur].get("end"):
                         seqs[cur] = []
+                        stat[cur] = []
                 elif kind in (0, 1) and cur in seqs:
                     total += 1
                     i = bisect.bisect_right(los, rip) - 1
                     if i >= 0 and rip < rngs[i][1]:
                         seqs[cur].append(rip)
                         kept += 1
+                        mo = memops.get(rip)
+                        if mo and st_lo is not None and st_hi is not None:
+                            rec = struct.unpack_from("<19Q", chunk, off)
+                            for disp, b, x, sc in mo:
+                                ea = (disp + (rec[b] if b is not None else 0) + (rec[x] if x is not None else 0) * sc) & 0xffffffffffffffff
+                                if st_lo <= ea < st_hi:
+                                    stat[cur].append((rip, ea))
+                                    nstat += 1
                 elif kind == 4 and cur in seqs:
                     seqs[cur].append(-1)
     os.remove(trace)
@@ -285,6 +341,20 @@ def run_steps(out, tier, seed, workdir, vt, binp, nm, mark):
                                "a_executes": fn_of(base[k]) if k < len(base) else "(ended)", "b_executes": fn_of(s[k]) if k < len(s) else "(ended)",
                                "before": [fn_of(x) for x in base[max(0, k - 3):k]],
                                "meaning": "same operation, same lengths and capacities, different key/nonce/message bytes (or the same bytes a second time): the instructions executed inside package sm4 differ"})
+    # static data reached through a register (a table): the address sequence must not depend on contents either
+    for (g, cls), ids in sorted(groups.items()):
+        base = stat.get(ids[0], [])
+        op = g.split("/")[0].split("#")[0]
+        for pid in ids[1:]:
+            sq = stat.get(pid, [])
+            if sq != base and seqs[pid] == seqs[ids[0]]:
+                k = next((i for i in range(min(len(sq), len(base))) if sq[i] != base[i]), min(len(sq), len(base)))
+                out.violation("public-operation-static-data-address-depends-on-contents:%s" % op,
+                              {"shape": g, "verdict_class": cls, "contents_a": plans[ids[0]]["variant"], "contents_b": plans[pid]["variant"],
+                               "instruction": fn_of(base[k][0]) if k < len(base) else "(none)",
+                               "address_a": hex(base[k][1]) if k < len(base) else None, "address_b": hex(sq[k][1]) if k < len(sq) else None,
+                               "meaning": "the same instructions ran, but a load or store inside the binary's static data (a table) used an address that differs between content assignments: a lookup indexed by key, data or hash-key bytes"})
+    out.counters["public_steps_static_data_accesses_compared"] = nstat
     if empty:
         out.inconclusive.append("paths/steps: %d shapes executed no instruction inside package sm4 (the operation is not served by the package?)" % empty)
     out.counters["public_steps_traced_instructions"] = total
